@@ -167,6 +167,13 @@ func (p *Policy) IsPeerSuspicious(peer string) bool {
 // policy file changed and the runtime should use the
 // new policy.
 func (p *Policy) ReloadFile() error {
+	mu.Lock()
+	defer mu.Unlock()
+	return p.reloadFile()
+}
+
+// reloadFile is ReloadFile for callers that already hold mu.
+func (p *Policy) reloadFile() error {
 	if p.path == "" {
 		return ErrNoPolicyFile
 	}
@@ -210,7 +217,7 @@ func (p *Policy) DisableSwaps() error {
 		return err
 	}
 
-	return p.ReloadFile()
+	return p.reloadFile()
 }
 
 // EnableSwaps sets the AllowNewSwaps field to true. This persists in the
@@ -232,7 +239,7 @@ func (p *Policy) EnableSwaps() error {
 		return err
 	}
 
-	return p.ReloadFile()
+	return p.reloadFile()
 }
 
 // AddToAllowlist adds a peer to the policy file in runtime. The pubkey is
@@ -257,7 +264,7 @@ func (p *Policy) AddToAllowlist(pubkey string) error {
 	if err != nil {
 		return err
 	}
-	return p.ReloadFile()
+	return p.reloadFile()
 }
 
 // AddToSuspiciousPeerList adds a peer as a suspicious peer to the policy file
@@ -282,7 +289,7 @@ func (p *Policy) AddToSuspiciousPeerList(pubkey string) error {
 	if err != nil {
 		return err
 	}
-	return p.ReloadFile()
+	return p.reloadFile()
 }
 
 func addLineToFile(filePath, line string) error {
@@ -337,7 +344,7 @@ func (p *Policy) RemoveFromAllowlist(pubkey string) error {
 	if err != nil {
 		return err
 	}
-	return p.ReloadFile()
+	return p.reloadFile()
 }
 
 // RemoveFromSuspiciousPeerList removes the pubkey of a node from the policy
@@ -368,7 +375,7 @@ func (p *Policy) RemoveFromSuspiciousPeerList(pubkey string) error {
 	if err != nil {
 		return err
 	}
-	return p.ReloadFile()
+	return p.reloadFile()
 }
 
 func removeLineFromFile(filePath, line string) error {
